@@ -1355,3 +1355,57 @@ def check_phase_alignment(ctx, rid):
                       f"{', X and Y blocks alike' if rpa else ''}; extra roots untouched",
                       f"phase alignment ({'RPA' if rpa else 'CIS'}, {n_ref} reference roots) does not return s(molecule, root) * amplitudes"
                       f"{' for both the X and the Y block: a sign applied to one block only turns [X; Y] into [X; -Y], which is no longer an eigenvector of the RPA problem' if rpa else ''}")
+
+
+# ====================================================================================================================
+# resume: constructor arguments of the rebuilt engine, interpreted
+def interpreted_resume_kwargs(repo):
+    """Molecular_Dynamics_Basic.run_from_checkpoint is interpreted (sa.npsym) for a synthetic checkpoint of every engine type; the checkpoint loader, RNG restore and the run
+    itself are stand-ins, the engine class is replaced by a recorder.  Returns {engine type: (class name constructed, kwargs)} with sentinel values from the checkpoint."""
+    import numpy as np
+    import sympy as sp
+    from .loader import AnalysisError
+    from .npsym import NpSym, ClassRef
+    md = repo.mod("seqm/MolecularDynamics.py")
+    f = md.func("Molecular_Dynamics_Basic.run_from_checkpoint")
+    out = {}
+    for T in ("Molecular_Dynamics_Basic", "Molecular_Dynamics_Langevin", "XL_BOMD", "KSA_XL_BOMD"):
+        damp, xlp, sq, outp = ("DAMP",), {"k": 5, "tag": "XLP"}, {"tag": "SEQM"}, {"tag": "OUT"}
+        ckpt = {"MD_type": T, "damp": damp, "xl_bomd_params": xlp, "seqm_parameters": sq, "timestep": sp.Rational(1, 2), "Temp": sp.Integer(300), "output": outp, "step_done": 7,
+                "steps": 10, "remove_com": None, "reuse_P": True, "xl_ctx": {"Pt": np.full((6, 1, 2, 2), sp.Integer(0), dtype=object), "es_amp_t": None}}
+        molecule = types.SimpleNamespace(dP2dt2=None)
+        rec = {}
+
+        def hook(cref, args, kwargs, rec=rec):
+            rec["cls"], rec["args"], rec["kwargs"] = cref.node.name, list(args), dict(kwargs)
+            obj = types.SimpleNamespace(_xl_ctx=None)
+            obj.to = lambda frame, *a, **k: obj
+            obj.run = lambda frame, *a, **k: rec.__setitem__("run", dict(k))
+            return obj
+        I = NpSym(repo, stubs={"Molecular_Dynamics_Basic._load_checkpoint_base": lambda *a, **k: (ckpt, molecule, "device", True),
+                               "Molecular_Dynamics_Basic._restore_rng": lambda *a, **k: None, "torch.load": lambda *a, **k: ckpt})
+        I.class_hook = hook
+        I.call_function(md, f, ["ckpt.pt"], {"device": "device"})
+        if "cls" not in rec:
+            raise AnalysisError(f"run_from_checkpoint: no engine constructed for a `{T}` checkpoint")
+        out[T] = (rec["cls"], rec["kwargs"], rec.get("run"), {"damp": damp, "xl_bomd_params": xlp, "seqm_parameters": sq, "output": outp})
+    return out
+
+
+def resume_kwargs_verdict(repo):
+    r = interpreted_resume_kwargs(repo)
+    bad = []
+    for T, (cls, kw, runkw, sent) in r.items():
+        if cls != T:
+            bad.append(f"a `{T}` checkpoint is resumed with class {cls}")
+        for k in ("seqm_parameters", "output"):
+            if kw.get(k) is not sent[k]:
+                bad.append(f"{T}: constructor argument `{k}` is not the checkpointed one")
+        if kw.get("step_offset") != 7:
+            bad.append(f"{T}: step_offset is {kw.get('step_offset')}, the checkpoint says 7 steps are done")
+        if T != "Molecular_Dynamics_Basic" and kw.get("damp") is not sent["damp"]:
+            bad.append(f"engine type {T}: the checkpoint records `damp` and {T}.__init__ accepts it, but the constructor is called with damp={kw.get('damp', '<absent>')!r}: the resumed engine "
+                       f"runs with the constructor default (the thermostat of a damped run is silently switched off on resume)")
+        if T in ("XL_BOMD", "KSA_XL_BOMD") and kw.get("xl_bomd_params") is not sent["xl_bomd_params"]:
+            bad.append(f"engine type {T}: the checkpointed xl_bomd_params are not handed to the constructor")
+    return (not bad, bad[0] if bad else "every engine type is rebuilt with its own class and with the checkpointed seqm_parameters, output, step offset, damping time and XL-BOMD parameters (interpreted resume)")
